@@ -76,6 +76,7 @@ def run_bounded(prop, tier, seed, cfg):
             merged["samples"].extend(r["samples"][:1])
         merged["failures"].extend(r["failures"])
         merged["errors"].extend(r["errors"])
+        merged["notes"] = (merged.get("notes", []) + r.get("notes", []))[:10]
         merged["truncated"] |= r["truncated"]
     try:
         os.rmdir(tmpd)
@@ -231,6 +232,7 @@ def check_property(prop, tier, seed):
             "hash_seeds": bounded["hashseeds"],
             "bounded_truncated_by_time_budget": bounded["truncated"],
             "exhaustive": False,
+            "observations_belonging_to_other_properties": bounded.get("notes", []),
         })
     if pf_summary:
         obs = pf_summary["obligations"]
@@ -297,6 +299,8 @@ def replay(path):
         f"rec=json.load(open({path!r}))\n"
         "m=importlib.import_module(rec['module'])\n"
         "r=m.run_case(rec['case'])\n"
+        "from vlib.runner import foreign\n"
+        "r['failures']=[f for f in r.get('failures',[]) if not foreign(rec['property'], f)]\n"
         "print(json.dumps(r,indent=1,default=str))\n"
         "sys.exit(1 if r.get('failures') else 0)\n"
     )
